@@ -119,6 +119,11 @@ def gen_scenarios(rng, *, per_workload, every):
                     continue
                 lead = rng.choice([0.0, 0.0, 0.02, 0.2])
                 scs.append(dict(b, stop_at=t, cond=cond, lead=lead))
+            # conditions that need time to develop before the stop
+            if b["workload"] == "txn":
+                scs.append(dict(b, stop_at=t, cond=["fence"], lead=rng.choice([0.05, 0.3, 0.6])))
+            if b["workload"] == "group":
+                scs.append(dict(b, stop_at=t, cond=["groupauth"], lead=rng.choice([0.1, 0.4, 0.8])))
     return scs, npoints
 
 
